@@ -78,7 +78,8 @@ def run_tlc(module, cfg, workdir, *, workers=8, timeout=600, simulate=None, seed
     if p.returncode == 124 and not simulate:
         raise ToolError(f"TLC timed out after {timeout}s: {' '.join(cmd)}")
     if not res["violated"] and not res["completed"]:
-        raise ToolError("TLC failed:\n" + out[-3000:])
+        first = [ln for ln in out.splitlines() if ln.startswith("Error:") or "Exception" in ln or "overflow" in ln.lower()][:6]
+        raise ToolError("TLC failed:\n" + "\n".join(first) + "\n...\n" + out[-3000:])
     return res
 
 _unm = re.compile(r'<<"UNMATCHED", (\d+)')
